@@ -300,12 +300,22 @@ def removal_closure_cases(tier):
         for bad in ("self-allof", "allof-dangling"):
             for first in (False, True):
                 out.append({"edges": {n: list(map(list, e)) for n, e in zip(nodes, combo)}, "bad": bad, "bad_first": first})
+    # class names that extend the broken schema's name (BadA, BadList ...): removal must go by identity, not by name prefix
+    for combo in allc[400:700 if tier != "thorough" else 3400]:
+        for bad in ("allof-dangling", "dangling-prop"):
+            out.append({"edges": {n: list(map(list, e)) for n, e in zip(nodes, combo)}, "bad": bad, "prefix_names": True})
     return out
 
 
 def removal_closure(case):
+    if case.get("prefix_names"):
+        ren = {"A": "BadA", "B": "BadList", "C": "Bad2", "Bad": "Bad"}
+        inner = dict(case, prefix_names=False, rename=ren)
+        return removal_closure(inner)
+    ren = case.get("rename") or {}
+
     def ref(t):
-        return {"$ref": f"#/components/schemas/{t}"}
+        return {"$ref": f"#/components/schemas/{ren.get(t, t)}"}
     schemas = {}
     for n, edges in case["edges"].items():
         props = {"id": {"type": "integer"}}
@@ -321,6 +331,8 @@ def removal_closure(case):
             else:
                 props[f"p{i}"] = {"oneOf": [ref(t), {"type": "string"}]}
         schemas[n] = {"type": "object", "properties": props}
+    if ren:
+        schemas = {ren.get(k, k): v for k, v in schemas.items()}
     if case["bad"] == "array-no-items":
         schemas["Bad"] = {"type": "object", "properties": {"x": {"type": "array"}}}
     elif case["bad"] == "self-allof":
@@ -342,7 +354,8 @@ def removal_closure(case):
         return f"document rejected: {data}"
     all_models = list(data.models)
     all_enums = list(data.enums)
-    alive = {m.class_info.name for m in all_models}
+    back = {v: k for k, v in ren.items()}
+    alive = {back.get(str(m.class_info.name), str(m.class_info.name)) for m in all_models}
     # who depends (transitively) on Bad?
     dep = {n: {t for t, _ in e} for n, e in case["edges"].items()}
     tainted = {"Bad"}
